@@ -17,7 +17,8 @@ elab "#audit_module " m:ident : command => do
     if env.getModuleIdxFor? n == some idx then
       match ci with
       | .thmInfo _ =>
-        if !n.isInternal && (`BMV.Props).isPrefixOf n then names := names.push n
+        if !n.isInternal && (`BMV.Props).isPrefixOf n && !(isAuxRecursor env n) && !(isNoConfusion env n) then
+          names := names.push n
       | _ => pure ()
   let sorted := names.qsort (fun a b => a.toString < b.toString)
   for n in sorted do
